@@ -189,6 +189,21 @@ def check_state(rb, ref, queries=True):
     return None
 
 
+def roundtrip(rb):
+    import os
+    import tempfile
+
+    from frequenz.sdk.timeseries._ringbuffer.serialization import dump, load
+
+    fd, path = tempfile.mkstemp(prefix="verif_c09_", suffix=".pkl")
+    os.close(fd)
+    try:
+        dump(rb, path)
+        return load(path)
+    finally:
+        os.unlink(path)
+
+
 QUERY_CLAUSES = {"full_window_is_stored_content", "index_window_is_slice_of_covered_content",
                  "datetime_window_is_content_of_covered_slots", "window_not_longer_than_query_span"}
 
@@ -265,6 +280,13 @@ def bfs(args) -> Acc:
                         if e[0] not in QUERY_CLAUSES:
                             continue  # content is wrong: do not build on this state
                     if new:
+                        # serialization round trip: a dumped and re-loaded buffer is the same time-indexed map
+                        rt = roundtrip(rb2)
+                        acc.clauses["dump_load_round_trip_preserves_content"] += 1
+                        e2 = None if rt is None else check_state(rt, ref2, queries=False)
+                        if rt is None or e2 or key(rt, ref2) != k:
+                            acc.violation(Violation("dump_load_round_trip_preserves_content", case,
+                                                    {"loaded": rt is not None, "first_difference": None if not e2 else [e2[0], e2[1]]}))
                         seen.add(k)
                         nxt.append((rb2, ref2, h))
                         acc.traces += 1
